@@ -827,7 +827,8 @@ def CheckProofOfWork(hash, nBits):
     target = uint256_from_compact(nBits)
 
     # Check range
-    if not (0 < target <= coreparams.PROOF_OF_WORK_LIMIT):
+    # A set sign bit (0x00800000) denotes a negative or zero target
+    if nBits & 0x00800000 or not (0 < target <= coreparams.PROOF_OF_WORK_LIMIT):
         raise CheckProofOfWorkError("CheckProofOfWork() : nBits below minimum work")
 
     # Check proof of work matches claimed amount
